@@ -57,10 +57,10 @@ func VerifHarness_C08_O2eager() {
 				Index:                verifNondetInt(fmt.Sprintf("index%d", i)),
 				SelfParentIndex:      verifNondetInt(fmt.Sprintf("selfParentIndex%d", i)),
 				OtherParentIndex:     verifNondetInt(fmt.Sprintf("otherParentIndex%d", i)),
-				Timestamp:            verifNondetInt64(fmt.Sprintf("timestamp%d", i)),
 			},
 			Signature: verifNondetString(fmt.Sprintf("signature%d", i), 2),
 		}
+		verifSetInt(&we.Body.Timestamp, verifNondetInt64(fmt.Sprintf("timestamp%d", i)))
 		switch verifChoice(fmt.Sprintf("payload%d", i), 3) {
 		case 1:
 			we.Body.Transactions = [][]byte{nil, {}}
